@@ -461,3 +461,42 @@ pub fn path_menu() -> Vec<refmodel::jpath::JPath> {
     v.push(JPath(vec![Step::Predicate(Box::new(Expr::Cmp(Cmp::Eq, Box::new(Expr::Paths(vec![Step::Root, Step::Indices(vec![AIdx::One(Idx::Last(0))])])), Box::new(num(65535))))) ]));
     v
 }
+
+// ---------------------------------------------------------------------------------------------
+// wide (4-6 siblings) and deep (4-6 levels) families with boundary-focused arguments
+
+pub fn wide_deep_doc(v: &RVal, acc: &mut Acc, what: u8) {
+    let d = SDoc { name: format!("{:?}", v), val: v.clone(), bytes: enc(v) };
+    match what {
+        0 => whole_doc(&d, acc),
+        1 => render_doc(&d, acc),
+        2 => {
+            accessors(&d, acc);
+            // the spine and every prefix of it, with one wrong step at each position
+            let sp = refmodel::gen::spine(v);
+            for cut in 0..=sp.len() {
+                let kp: Vec<KP> = sp[..cut].to_vec();
+                let kpi: Vec<_> = kp.iter().map(to_keypath).collect();
+                cmp_opt("get_by_keypath", guard(|| jsonb::get_by_keypath(&d.bytes, kpi.iter())).unwrap_or(None), ops::get_by_keypath(v, &kp), acc, &d, &format!("{:?}", kp));
+                if cut < sp.len() {
+                    for wrong in [KP::Index(7), KP::Name("nope".into()), KP::Index(-1)] {
+                        let mut kp2 = kp.clone();
+                        kp2.push(wrong);
+                        let kpi: Vec<_> = kp2.iter().map(to_keypath).collect();
+                        cmp_opt("get_by_keypath", guard(|| jsonb::get_by_keypath(&d.bytes, kpi.iter())).unwrap_or(None), ops::get_by_keypath(v, &kp2), acc, &d, &format!("{:?}", kp2));
+                    }
+                }
+            }
+        }
+        3 => {
+            editors(&d, &small_pool(), acc);
+            let sp = refmodel::gen::spine(v);
+            for cut in 1..=sp.len() {
+                let kp: Vec<KP> = sp[..cut].to_vec();
+                let kpi: Vec<_> = kp.iter().map(to_keypath).collect();
+                edit("delete_by_keypath", |buf| jsonb::delete_by_keypath(&d.bytes, kpi.iter(), buf), ops::delete_by_keypath(v, &kp), acc, &d, &format!("{:?}", kp));
+            }
+        }
+        _ => serde_doc(&d, acc),
+    }
+}
